@@ -65,4 +65,28 @@ def insertSorted (x : String) : List String → List String
 /-- stable sort of paths (`Vec::sort` on `Cow<Utf8Path>`) -/
 def pathSort (l : List String) : List String := l.foldl (fun acc x => insertSorted x acc) []
 
+/-- the components of a path (split at every `/`) -/
+def splitSlash : List Char → List Char → List (List Char)
+  | cur, [] => [cur.reverse]
+  | cur, c :: cs => if c == '/' then cur.reverse :: splitSlash [] cs else splitSlash (c :: cur) cs
+
+/-- a path as ninja canonicalizes it: `.` components, repeated `/` and `dir/..` pairs are dropped (`check_duplicate_outputs::canonical`) -/
+def canonParts : List (List Char) → List (List Char) → List (List Char)
+  | acc, [] => acc.reverse
+  | acc, p :: ps =>
+    if p == [] || p == ['.'] then canonParts acc ps
+    else if p == ['.', '.'] then
+      match acc with
+      | last :: rest => if last != ['.', '.'] then canonParts rest ps else canonParts (p :: acc) ps
+      | [] => canonParts (p :: acc) ps
+    else canonParts (p :: acc) ps
+
+def joinSlash : List (List Char) → List Char
+  | [] => []
+  | [p] => p
+  | p :: ps => p ++ '/' :: joinSlash ps
+
+def canonPath (p : String) : String :=
+  String.ofList ((if p.toList.head? == some '/' then ['/'] else []) ++ joinSlash (canonParts [] (splitSlash [] p.toList)))
+
 end Laze
